@@ -547,3 +547,93 @@ func indent(s string) string {
 	}
 	return "     | " + strings.Join(lines, "\n     | ")
 }
+
+// cmdSeeded runs the owning property's check against every seeded change under /verif/seeded
+// (each applied to a scratch copy of /repo) and reports which are caught.
+func cmdSeeded(args []string) int {
+	fs := flag.NewFlagSet("seeded", flag.ExitOnError)
+	only := fs.String("only", "", "substring of mutant name")
+	props := fs.String("props", "", "comma-separated list of extra properties to run for every mutant")
+	_ = fs.Parse(args)
+	dirs, _ := filepath.Glob(filepath.Join(verifDir(), "seeded", "*", "patch.diff"))
+	sort.Strings(dirs)
+	self, _ := os.Executable()
+	type row struct {
+		Mutant     string   `json:"mutant"`
+		Property   string   `json:"property"`
+		Caught     bool     `json:"caught"`
+		Exit       int      `json:"exit"`
+		Violations []string `json:"violations"`
+	}
+	var rows []row
+	for _, pd := range dirs {
+		d := filepath.Dir(pd)
+		name := filepath.Base(d)
+		if *only != "" && !strings.Contains(name, *only) {
+			continue
+		}
+		var meta struct {
+			Property string `json:"property"`
+		}
+		data, _ := os.ReadFile(filepath.Join(d, "meta.json"))
+		_ = json.Unmarshal(data, &meta)
+		plist := []string{meta.Property}
+		if *props != "" {
+			plist = append(plist, strings.Split(*props, ",")...)
+		}
+		scratch, _ := os.MkdirTemp("/var/tmp", "govc-seed-")
+		repo := filepath.Join(scratch, "repo")
+		if out, err := exec.Command("rsync", "-a", "--exclude", ".git", repoDir()+"/", repo+"/").CombinedOutput(); err != nil {
+			fmt.Printf("%s: rsync failed: %v %s\n", name, err, out)
+			os.RemoveAll(scratch)
+			continue
+		}
+		cmd := exec.Command("patch", "-p1", "-s", "-i", pd)
+		cmd.Dir = repo
+		if out, err := cmd.CombinedOutput(); err != nil {
+			fmt.Printf("%s: patch does not apply: %s\n", name, out)
+			os.RemoveAll(scratch)
+			continue
+		}
+		for _, p := range plist {
+			c := exec.Command(self, "check", p, "--tier", "quick")
+			c.Env = append(os.Environ(), "GOVC_REPO="+repo, "GOVC_EVIDENCE_DIR="+filepath.Join(scratch, "ev"), "GOVC_VERIF="+verifDir(), "GOVC_REPLAY_DIR="+filepath.Join(scratch, "replays"))
+			out, err := c.CombinedOutput()
+			code := 0
+			if ee, ok := err.(*exec.ExitError); ok {
+				code = ee.ExitCode()
+			} else if err != nil {
+				code = -1
+			}
+			r := row{Mutant: name, Property: p, Exit: code}
+			for _, l := range strings.Split(string(out), "\n") {
+				if strings.Contains(l, "not discharged:") || strings.Contains(l, "no longer generated") {
+					r.Violations = append(r.Violations, strings.TrimSpace(l))
+				}
+			}
+			r.Caught = code == 1
+			rows = append(rows, r)
+			status := "MISSED"
+			if r.Caught {
+				status = "caught"
+			} else if code != 0 {
+				status = fmt.Sprintf("ERROR(exit %d)", code)
+			}
+			first := ""
+			if len(r.Violations) > 0 {
+				first = r.Violations[0]
+				if len(first) > 110 {
+					first = first[:110]
+				}
+			}
+			fmt.Printf("%-8s %-10s %-5s %s\n", status, name, p, first)
+			if code != 0 && code != 1 {
+				fmt.Println(indent(string(out)))
+			}
+		}
+		os.RemoveAll(scratch)
+	}
+	data, _ := json.MarshalIndent(rows, "", " ")
+	_ = os.WriteFile(filepath.Join(verifDir(), "seeded", "RESULTS.json"), data, 0644)
+	return 0
+}
